@@ -185,12 +185,6 @@ func memCase(alu string, m mop, r *vh.Rng, k int) Case {
 		sa := saddrs[k%len(saddrs)]
 		offs := []int{0, 4, 0x1ffc, 0xfff, 0x1000, 0}
 		off := offs[k%len(offs)]
-		if alu == "gcn3" && k%2 == 0 {
-			off = 0 // gfx8 FLAT has no offset field
-			if k%4 == 0 {
-				sa = 0
-			}
-		}
 		strides := []uint64{4, 0, 3, 16, 1, 8}
 		stride := strides[k%len(strides)]
 		basesA := []uint64{0x20000, 0xfffffffffffffff0, 0xfffffffe, 0x100000000000, 0x30001, 0x7ff8}
@@ -200,6 +194,9 @@ func memCase(alu string, m mop, r *vh.Rng, k int) Case {
 			stride = uint64(r.Intn(20))
 			sa = []int{0x7f, 0, 4 + 2*r.Intn(40)}[r.Intn(3)]
 			off = r.Intn(1 << 13)
+		}
+		if alu == "gcn3" && k != 1 && k != 3 && k != 7 {
+			off, sa = 0, 0 // gfx8 FLAT: no offset field, no SADDR field (reserved bits are zero)
 		}
 		if sa != 0x7f {
 			sb := uint64(0x4000000000) + uint64(r.Intn(1<<16))
